@@ -1021,10 +1021,9 @@ namespace occa {
         }
       }
 
-      // Default to #if false with error
+      // The caller decides how to handle the error
+      //   (#if opens a group, #elif must not)
       if (exprError) {
-        pushStatus(ppStatus::ignoring |
-                   ppStatus::foundIf);
         return false;
       }
 
@@ -1078,7 +1077,8 @@ namespace occa {
 
       bool isTrue;
       if (!lineIsTrue(directive, isTrue)) {
-        return;
+        // Default to #if false with error
+        isTrue = false;
       }
 
       pushStatus(ppStatus::foundIf | (isTrue
